@@ -398,6 +398,42 @@ def alloc_sites():
     return sites
 
 
+
+def numbers():
+    """integer literals of the library sources of both crates (comments and strings excluded), 2 <= v <= 2^33"""
+    vals = set()
+    for c in CRATES:
+        for f in sorted(glob.glob(os.path.join(REPO, c, "src", "**", "*.rs"), recursive=True)):
+            for kind, text, _ in lex(open(f, encoding="utf-8", errors="replace").read()):
+                if kind != "num":
+                    continue
+                t = re.sub(r"_?(u8|i8|u16|u32|u64|u128|usize|i16|i32|i64|i128|isize)$", "", text).replace("_", "")
+                try:
+                    tl = t.lower()
+                    v = int(tl, 16) if tl.startswith("0x") else (int(tl[2:], 8) if tl.startswith("0o") else (int(tl[2:], 2) if tl.startswith("0b") else int(tl)))
+                except ValueError:
+                    continue
+                if 2 <= v <= 2 ** 33:
+                    vals.add(v)
+    return sorted(vals)
+
+
+STATIC_SIZES = {0, 1, 2, 3, 4, 5, 6, 7, 8, 9, 13, 16, 17, 32, 33, 48, 64, 96, 128, 130, 200, 255, 300, 512, 4096, 4200, 8192}
+
+
+def dict_sizes(nums):
+    """buffer SIZEs to instantiate in addition to the fixed ones: every integer literal of the source between 16 and 10000,
+       with its neighbours (a special case keyed on `SIZE == 1024` or `len >= 1500` is otherwise never reached)"""
+    out = []
+    for v in nums:
+        if 16 <= v <= 10000:
+            for x in (v, v + 1, v - 1):
+                if x not in STATIC_SIZES and x not in out:
+                    out.append(x)
+    # literals of the code proper come before those of its tests only by accident of sorting; keep the list bounded
+    return sorted(out)[:36]
+
+
 def lean_str(s):
     return '"' + s.replace("\\", "\\\\").replace('"', '\\"') + '"'
 
@@ -480,6 +516,19 @@ if __name__ == "__main__":
         os.makedirs(os.path.dirname(out), exist_ok=True)
         open(out, "w").write("".join(t.hex() + "\n" for t in d))
         print(json.dumps({"dict": out, "tokens": len(d), "multi_byte": [t.hex() for t in d if len(t) > 1][:80]}))
+    elif "--nums" in sys.argv:
+        k = sys.argv.index("--nums")
+        out = sys.argv[k + 1]
+        ns = numbers()
+        os.makedirs(os.path.dirname(out), exist_ok=True)
+        body = "".join("%d\n" % v for v in ns)
+        if not os.path.exists(out) or open(out).read() != body:
+            open(out, "w").write(body)
+        sz = out + ".sizes"
+        body = "".join("%d\n" % v for v in dict_sizes(ns))
+        if not os.path.exists(sz) or open(sz).read() != body:   # unchanged file = no rebuild of the harness
+            open(sz, "w").write(body)
+        print(json.dumps({"nums": out, "count": len(ns), "sizes": dict_sizes(ns)}))
     elif "--lint" in sys.argv:
         lint()
     else:
